@@ -86,7 +86,7 @@ def run(ctx, drv):
     ctx.nontrivial_rule = ("populations of 0..30 distinct solution objects, 1-4 objectives on grids of 2-8 values (15% duplicated "
                            "vectors) or random doubles, mixed directions, 30% constrained; for each, all target sizes k = 0..n+2 for "
                            "truncate / split / prune. non-trivial = >= 2 fronts and >= 1 front with >= 3 distinct vectors; "
-                           "distinct by request line")
+                           "distinct by request line + call sequences on overlapping populations (survivors, deep copies, newcomers), the same object listed twice")
     reqs, post = [], []
 
     def ask(line, fn):
